@@ -72,6 +72,7 @@ pub fn th_harness(prop: &'static str, h: crate::thworld::ThHarness) -> Harness {
                 observation: r.outcome,
                 transitions: r.exec.points.len() as u64,
                 bad_choice: r.exec.bad_choice,
+                end_only: false,
             }
         }),
     }
@@ -115,6 +116,7 @@ pub fn harnesses(prop: &str, tier: &str) -> Vec<Harness> {
         "C04" => c04(quick),
         "C05" => c05(quick),
         "C06" => c06(quick),
+        "C07" => c07(quick),
         "C09" => c09(quick),
         "C11" => c11(quick),
         _ => Vec::new(),
@@ -281,6 +283,48 @@ fn c04(quick: bool) -> Vec<Harness> {
     v
 }
 
+fn c07(quick: bool) -> Vec<Harness> {
+    let mut v = Vec::new();
+    let d = |q: usize, t: usize| if quick { q } else { t };
+    use Kind::*;
+    for k in [OpenFile, OpenDirect, Socket, SocketDirect, Accept, AcceptNoAddr, MultishotAccept, Pipe, PipeDirect, ToDirect] {
+        for sq in [1u32, 4] {
+            let mut cfg = drop_cfg("C07", vec![k]);
+            cfg.sq = sq;
+            cfg.direct_table = Some(4);
+            cfg.held_letters = true;
+            cfg.faults = false;
+            cfg.errors = true;
+            cfg.costs.outcome = 1;
+            cfg.max_ops = 1;
+            cfg.report = vec!["C07"];
+            v.push(ops_harness(&format!("{k:?}-sq{sq}"), "C07", cfg, bounds(d(8, 10), d(2, 3), 4)));
+        }
+    }
+    // Queue full at the moment the descriptor is dropped: a second operation occupies the only slot.
+    for a in [OpenFile, OpenDirect, PipeDirect, AcceptNoAddr] {
+        let mut cfg = drop_cfg("C07", vec![a, ReadVec]);
+        cfg.sq = 1;
+        cfg.direct_table = Some(4);
+        cfg.held_letters = true;
+        cfg.faults = false;
+        cfg.errors = false;
+        cfg.allow_cancel_lose = false;
+        cfg.report = vec!["C07"];
+        v.push(ops_harness(&format!("{a:?}+ReadVec-sq1-full"), "C07", cfg, bounds(d(9, 10), d(2, 3), 4)));
+    }
+    for (a, b) in [(OpenFile, OpenDirect), (MultishotAccept, Socket), (Pipe, ToDirect)] {
+        let mut cfg = drop_cfg("C07", vec![a, b]);
+        cfg.sq = 2;
+        cfg.direct_table = Some(4);
+        cfg.held_letters = true;
+        cfg.faults = false;
+        cfg.report = vec!["C07"];
+        v.push(ops_harness(&format!("{a:?}+{b:?}"), "C07", cfg, bounds(d(8, 10), d(2, 3), 4)));
+    }
+    v
+}
+
 fn c11(quick: bool) -> Vec<Harness> {
     use crate::thworld::{C11Cfg, RingMode, c11};
     let mut v = Vec::new();
@@ -295,11 +339,15 @@ fn c11(quick: bool) -> Vec<Harness> {
                 if wakers * each < need {
                     continue; // Not enough wakes to end every blocking poll.
                 }
-                v.push(th_harness("C11", c11(C11Cfg { mode, polls: polls.clone(), wakers, wakes_each: each, sq: 2, sq_full: false }, pb)));
+                v.push(th_harness("C11", c11(C11Cfg { mode, polls: polls.clone(), wakers, wakes_each: each, sq: 2, sq_full: false, pre_posted: vec![] }, pb)));
             }
         }
     }
-    v.push(th_harness("C11", c11(C11Cfg { mode: RingMode::Default, polls: vec![None], wakers: 1, wakes_each: 1, sq: 1, sq_full: true }, pb)));
+    v.push(th_harness("C11", c11(C11Cfg { mode: RingMode::Default, polls: vec![None], wakers: 1, wakes_each: 1, sq: 1, sq_full: true, pre_posted: vec![] }, pb)));
+    for mode in [RingMode::Default, RingMode::KernelThread, RingMode::SingleIssuer] {
+        v.push(th_harness("C11", c11(C11Cfg { mode, polls: vec![None, None], wakers: 1, wakes_each: 1, sq: 2, sq_full: false, pre_posted: vec![0] }, pb)));
+        v.push(th_harness("C11", c11(C11Cfg { mode, polls: vec![Some(0), None, None], wakers: 1, wakes_each: 1, sq: 2, sq_full: false, pre_posted: vec![1] }, pb)));
+    }
     v
 }
 
@@ -415,7 +463,7 @@ fn c01(quick: bool) -> Vec<Harness> {
     v
 }
 
-pub const ALL: &[&str] = &["C01", "C02", "C03", "C04", "C05", "C06", "C09", "C11"];
+pub const ALL: &[&str] = &["C01", "C02", "C03", "C04", "C05", "C06", "C07", "C09", "C11"];
 
 pub fn assumptions(prop: &str) -> Vec<String> {
     let mut v = vec![
